@@ -51,7 +51,7 @@ func c04gen(r *gen.R) c04case {
 	emptyUsed := false
 	for i := 0; i < n; i++ {
 		var key string
-		uniq := fmt.Sprintf("k%d", i)
+		uniq := fmt.Sprintf("k%d~", i)
 		switch r.Intn(6) {
 		case 0:
 			key = uniq
